@@ -1,10 +1,12 @@
 #!/bin/bash
 # usage: tools/seed_batch.sh "<Cxx/seeddemoN> ..." "<checks>"   -> /tmp/stage/<Cxx_seeddemoN>.result
 # stages each sub-agent demonstration directory, vets it (tools/vet_seed.sh) and runs the given checks on the patched scratch copy
+# env SEEDROOT (default /tmp/seed) and TAG (default empty; e.g. r2 -> staged as Cxx_r2_seeddemoN)
 cd /verif
 for d in $1; do
   n=$(echo $d | tr / _)
-  rm -rf /tmp/stage/$n; mkdir -p /tmp/stage; cp -r /tmp/seed/$d /tmp/stage/$n
+  [ -n "${TAG:-}" ] && n=$(echo $n | sed -E "s/^(C[0-9]+)_/\1_${TAG}_/")
+  rm -rf /tmp/stage/$n; mkdir -p /tmp/stage; cp -r ${SEEDROOT:-/tmp/seed}/$d /tmp/stage/$n
   find /tmp/stage/$n -type f \( -name '*.o' -o -name '*.a' -o -perm -u+x -size +100k \) -delete 2>/dev/null
   rm -rf /tmp/stage/$n/build /tmp/stage/$n/logs/*.bin
   { echo "=== $n"; tools/vet_seed.sh /tmp/stage/$n; tools/try_patch.sh /tmp/stage/$n/patch.diff $2; } > /tmp/stage/$n.result 2>&1
